@@ -13,7 +13,7 @@ Theorem C10_translation_sound :
   (forall p, re_ok p = true -> forall s, re_match p s <> None) ->
   (forall s z, parse_dur s = Some z -> in_i64 z = true) ->
   struct_ok fts rho = true ->
-  proved_fragment fts fname e = true ->
+  proved_fragment re_ok fts fname e = true ->
   cel_condition fname re_ok src (Some e) = Some cond ->
   exists r, geval re_match parse_float fmt_g parse_dur (go_fields rho) [] cond = GV (GBool r) /\
             (forall b, ceval re_match parse_float fmt_g parse_dur (cel_env fname rho) e = Some (CV (VBool b)) -> r = negb b).
@@ -67,7 +67,7 @@ Definition ex_expr : cexpr :=
 Definition the (o : option gexpr) : gexpr := match o with Some g => g | None => GUnknown end.
 Definition ex_cond : gexpr := Eval vm_compute in the (cel_condition V (fun _ => true) [] (Some ex_expr)).
 Example C10_fragment_inhabited :
-  proved_fragment ex_fields V ex_expr = true /\ struct_ok ex_fields (ex_rho 4 2) = true /\
+  proved_fragment (fun _ => true) ex_fields V ex_expr = true /\ struct_ok ex_fields (ex_rho 4 2) = true /\
   ceval no_re no_pf no_fg (dur_of []) (cel_env V (ex_rho 4 2)) ex_expr = Some (CV (VBool true)) /\
   cel_condition V (fun _ => true) [] (Some ex_expr) = Some ex_cond /\
   geval no_re no_pf no_fg (dur_of []) (go_fields (ex_rho 4 2)) [] ex_cond = GV (GBool false).
